@@ -92,7 +92,8 @@ def rand_scenario(rng, focus, sid, max_prov=5, max_pts=3):
     order = list(range(1, len(provs) + 1)); rng.shuffle(order)
     reg = list(range(1, len(provs) + 1)); rng.shuffle(reg)
     # preset: every point's field holds a sentinel before the start (what receives nothing must stay untouched)
-    return dict(id=sid, prov=provs, pts=pts, order=order, reg=reg, preset=rng.random() < 0.4)
+    # extra: the container's second public by-type collector (NewDependencyTypeAwarePostProcessors) is registered as well
+    return dict(id=sid, prov=provs, pts=pts, order=order, reg=reg, preset=rng.random() < 0.4, extra=rng.random() < 0.25)
 
 
 def with_orders(rng, sc, k):
